@@ -250,6 +250,12 @@ type FuncSpec struct {
 	// SpreadAppend: `append(a, b...)` -> (a ++ b) (functional reading, as ValueOnly).
 	OutCallAny   bool
 	SpreadAppend bool
+	// ---- (C17, round 4) default-off
+	// AliasByFact: whether the slices of this function share a backing array is the subject of a SEPARATELY regenerated aliasing fact and
+	// its theorem (alias_c17.go -> Generated/RPAlias.lean, C17Iso.exchange_origin / isolation_safe). With it, `y := x` where x is a slice
+	// this function built with `make([]T, len(xs))` + the conversion loop (capacity = length, never appended to since) keeps y readable
+	// functionally: every append to y reallocates. Without the flag such a y is "may share its backing array" (UNSUPPORTED on append).
+	AliasByFact bool
 }
 
 // StructLit: `&pkg.T{K: V, ...}` becomes `({ K := V, ... } : Lean)`, restricted to the fields in Keep.
@@ -289,6 +295,7 @@ type tr struct {
 	indent      int
 	errInScope  bool                 // inside a `.error err =>` branch
 	fresh       map[string]bool      // slice variables known to own their backing array (make / literal)
+	full        map[string]bool      // (AliasByFact) slice variables built by make([]T, len(xs)) + conversion loop: capacity = length
 	inClosure   bool                 // RetHandler: inside the returned handler closure
 	declared    map[string]bool      // variables declared in the function (closure) being translated: `=` to anything else is shared state
 	pendingPost string               // write-back of a field out-parameter (see okPattern)
@@ -2004,6 +2011,12 @@ func (t *tr) block(stmts []ast.Stmt, k cont) string {
 			if src, v, conv, ok := t.convertLoop(x, stmts[1]); ok {
 				name := exprString(x.Lhs[0])
 				t.fresh[name] = true
+				if t.spec.AliasByFact {
+					if t.full == nil {
+						t.full = map[string]bool{}
+					}
+					t.full[name] = true
+				}
 				return "let " + t.ident(name) + " := (Go.mapList " + src + " (fun " + v + " => " + conv + "));\n" + t.pad() + t.block(stmts[2:], k)
 			}
 		}
@@ -2019,6 +2032,13 @@ func (t *tr) block(stmts []ast.Stmt, k cont) string {
 						t.fresh[id.Name] = true
 					} else if fn == "append" && len(rhs.Args) > 0 && exprString(rhs.Args[0]) == id.Name {
 						// x = append(x, ...) keeps what x was
+						delete(t.full, id.Name) // ... but the result may have spare capacity
+					} else {
+						delete(t.fresh, id.Name)
+					}
+				case *ast.Ident:
+					if t.spec.AliasByFact && t.full[rhs.Name] && t.fresh[rhs.Name] {
+						t.fresh[id.Name] = true // y := x, x full: appends to y reallocate (soundness: the regenerated aliasing fact + C17Iso.isolation_safe)
 					} else {
 						delete(t.fresh, id.Name)
 					}
